@@ -196,3 +196,16 @@ func (o *Obs) Project(done []string) string {
 	}
 	return b.String()
 }
+
+// NotClosed lists the watched channels that are still open, in a fixed order (oracle messages must not depend on
+// map iteration order).
+func (o *Obs) NotClosed() []string {
+	var r []string
+	for n, cl := range o.Closed {
+		if !cl {
+			r = append(r, n)
+		}
+	}
+	sort.Strings(r)
+	return r
+}
